@@ -177,11 +177,14 @@ impl LocalInboundStats {
         let expected = self.expected();
         let expected_interval = expected.wrapping_sub(self.expected_prior);
         let received_interval = (self.packets_received as u32).wrapping_sub(self.received_prior);
-        let lost_interval = expected_interval as i32 - received_interval as i32;
+        // Both intervals are arbitrary u32 values (a sender stepping its sequence
+        // number by 0x7FFF advances `cycles` every other packet): the difference is
+        // taken in i64, where it cannot overflow.
+        let lost_interval = expected_interval as i64 - received_interval as i64;
         let fraction = if expected_interval == 0 || lost_interval <= 0 {
             0u8
         } else {
-            (((lost_interval as u32) << 8) / expected_interval) as u8
+            (((lost_interval as u64) << 8) / expected_interval as u64).min(255) as u8
         };
         self.expected_prior = expected;
         self.received_prior = self.packets_received as u32;
